@@ -110,6 +110,10 @@ def main(pid, tier, jobs=None):
     if hasattr(mod, 'setup'):
         mod.setup(True)
     structures = mod.structures(tier)
+    only = os.environ.get('VX_ONLY')          # debugging aid: VX_ONLY=kind=long keeps the structures with that key/value
+    if only:
+        k, _, v = only.partition('=')
+        structures = [s for s in structures if str(s.get(k)) == v]
     opts = dict(getattr(mod, 'EXPLORE_OPTS', {}))
     opts.update(getattr(mod, 'EXPLORE_OPTS_TIER', {}).get(tier, {}))
     if tier == 'quick':
